@@ -427,7 +427,7 @@ package tor
 // "none", and a port is only advertised in "normal" mode without a proxy.
 //@ func (*Torrent).announce
 //@   requires t != nil && t.Log != nil
-//@   modifies *
+//@   modifies t.announceTime, heap:time.*, heap:global:*
 //@   assertcall [mode] Announce :: t.dhtMode > 0
 //@   assertcall [port] Announce :: port != 0 ==> t.dhtMode >= 2 && t.proxy == ""
 //@   props    C18
@@ -475,7 +475,8 @@ package tor
 //@   modifies *
 //@   props    C14 C18
 
-// ---- handleEvent: PARTIAL check (C09) ----
+// ---- handleEvent: PARTIAL check (C09; C18: a SetConf event installs exactly
+// the three switches it carries -- checked where the arm goes on to DelIdle) ----
 // A TorDrop / TorData event for [Begin, Begin+Length) of a piece releases the
 // in-flight count of as many blocks as that range touches, ceil(Length/16 KiB),
 // including a final short one (Ghost_n counts the releasing calls of
@@ -507,9 +508,10 @@ package tor
 //@     invariant i <= chunks && Ghost_n == int(i)
 //@   loop 5
 //@     invariant i <= chunks && Ghost_n == int(i)
+//@   assertcall [setconf] DelIdle :: typeis_[peer.TorSetConf](c) ==> t.useTrackers == as_[peer.TorSetConf](c).Conf.UseTrackers && t.useWebseeds == as_[peer.TorSetConf](c).Conf.UseWebseeds && t.dhtMode == as_[peer.TorSetConf](c).Conf.DhtMode
 //@   splitreturn
-//@   focus    post:dropall, post:dataall
-//@   props    C09
+//@   focus    post:dropall, post:dataall, assert:setconf
+//@   props    C09 C18
 
 // noteAvailable: the availability of exactly the named piece moves by one
 // (saturating at 0 and 65535), the table grows as needed, other pieces keep
